@@ -910,7 +910,9 @@ fn random_history(rng: &mut Rng, out: &mut Out, stats: &mut Stats, hist: usize) 
         Some(match rng.below(6) { 0 => Strat::Simple, 1 => Strat::Basic, 2 => Strat::Append, 3 => Strat::AppendRev, 4 => Strat::GAppend, _ => Strat::GAppendRev })
     } else { None };
     // replay into native strategies needs positive alignments: always true here
-    s.def_queries(rp);
+    // capacity / Display are only meaningful for native layouts (generic strategies assign no offsets)
+    if !generic_strats { s.def_basic(); }
+    if let Some(st) = rp { s.def_replay(st); }
     s.finish();
 }
 
@@ -942,7 +944,7 @@ fn exhaustive(thorough: bool, shard: usize, nshards: usize, out: &mut Out, stats
                                     ran += 1;
                                     let mut s = Session::new(out, stats, ran - 1, "native", 0, false);
                                     let mut n = 0;
-                                    let mut mk = |sh: &(usize, usize), n: &mut usize| { *n += 1; AddReq { name: format!("f{}", n), ty: format!("T{}x{}", sh.0, sh.1), size: sh.0, align: sh.1, uninit: false, entry: "override" } };
+                                    let mk = |sh: &(usize, usize), n: &mut usize| { *n += 1; AddReq { name: format!("f{}", n), ty: format!("T{}x{}", sh.0, sh.1), size: sh.0, align: sh.1, uninit: false, entry: "override" } };
                                     for sh in a1 { let r = mk(sh, &mut n); s.add(&r); }
                                     s.close(s1);
                                     for i in 0..a1.len() { if mask & (1 << i) != 0 { s.rm(i); } }
